@@ -23,9 +23,13 @@ type c15Sel struct {
 	k        *keyer
 	store    *ssa.Store // canaryStatus.Nodes = X
 	prev     func(ssa.Value) bool
-	listObj  ssa.Value // the *NodeList handed to client.List
+	listObj  ssa.Value // the *NodeList handed to client.List (in listFn)
 	listCall ssa.CallInstruction
+	listFn   *ssa.Function   // function issuing the node List: the selection function or a helper of it
+	listAt   ssa.Instruction // instruction of the selection function at which the nodes are listed
 	podList  ssa.Value
+	al       *aliasC
+	scope    []*ssa.Function // the selection function and the repository helpers it reaches
 	tpl      func(ssa.Value) bool
 	nb       ssa.Value // resolved replicas
 	nbCall   *ssa.Call
@@ -65,7 +69,16 @@ func c15FindSelection(r *Run, rule string) *c15Sel {
 		_, isLoad := unwrap(v).(*ssa.UnOp)
 		return isLoad && root == sroot && pathIsC(p, "Nodes")
 	}
-	for _, e := range effectsOf(map[*ssa.Function]bool{fn: true}) {
+	s.al = newAliasC(r.Prog, reach)
+	scopeSet := map[*ssa.Function]bool{}
+	for f := range r.Prog.reachableFuncs(fn) {
+		if r.Prog.IsRuleSite(f) {
+			scopeSet[f] = true
+		}
+	}
+	s.scope = sortedFuncs(scopeSet)
+	// the node and pod lists may be listed by the selection function itself or by a helper it calls
+	for _, e := range effectsOf(scopeSet) {
 		if e.Verb != "List" {
 			continue
 		}
@@ -75,7 +88,7 @@ func c15FindSelection(r *Run, rule string) *c15Sel {
 				r.Fatal("%s lists nodes twice", shortFunc(fn))
 				return nil
 			}
-			s.listObj, s.listCall = unwrap(e.Obj), e.Call
+			s.listObj, s.listCall, s.listFn = unwrap(e.Obj), e.Call, e.Fn
 		case pkgCoreV1 + ".PodList":
 			s.podList = unwrap(e.Obj)
 		}
@@ -83,6 +96,29 @@ func c15FindSelection(r *Run, rule string) *c15Sel {
 	if s.listObj == nil {
 		r.Fatal("%s does not list nodes", shortFunc(fn))
 		return nil
+	}
+	if s.listFn == fn {
+		s.listAt = s.listCall
+	} else {
+		// the call in the selection function whose result is the listed object
+		for _, ci := range callsIn(fn) {
+			c, ok := ci.(*ssa.Call)
+			if !ok || repoCalleeC(&c.Call) == nil {
+				continue
+			}
+			if s.al.same(c, s.listObj) {
+				s.listAt = c
+			}
+			for _, rf := range refs(c) {
+				if e, isE := rf.(*ssa.Extract); isE && s.al.same(e, s.listObj) {
+					s.listAt = c
+				}
+			}
+		}
+		if s.listAt == nil {
+			r.Fatal("%s: the node list listed by %s does not reach the selection as a helper result", shortFunc(fn), shortFunc(s.listFn))
+			return nil
+		}
 	}
 	s.tpl = func(v ssa.Value) bool { return c01TemplatePod(v) }
 	for _, ci := range callsIn(fn) {
@@ -115,7 +151,12 @@ func (s *c15Sel) freshLoop(l *sliceLoopC) bool {
 	if !ok || fieldName(fa) != "Items" {
 		return false
 	}
-	return sameValueC(s.k, fa.X, s.listObj) && instrBeforeC(s.listCall, l.Header.Instrs[len(l.Header.Instrs)-1])
+	return s.sameList(fa.X) && instrBeforeC(s.listAt, l.Header.Instrs[len(l.Header.Instrs)-1])
+}
+
+// sameList: x denotes the listed *NodeList object.
+func (s *c15Sel) sameList(x ssa.Value) bool {
+	return sameValueC(s.k, x, s.listObj) || s.al.same(x, s.listObj)
 }
 
 // prevLoop: l ranges over the previously selected list (possibly nil when there is no status).
@@ -379,18 +420,18 @@ func c15Valid(r *Run, s *c15Sel, apps []c15Append) {
 // R8: the node list is filtered by the canary node selector
 
 func c15Selector(r *Run, s *c15Sel) {
-	fn := s.fn
+	fn := s.listFn // the function that issues the List (the selection function or its listing helper)
 	args := s.listCall.Common().Args
 	opts := args[len(args)-1]
 	isEnd := func(b *ssa.BasicBlock) bool { return b == s.listCall.Block() }
-	paths, ok := enumPaths(fn, s.k, fn.Blocks[0], isEnd, isEnd, 5000)
+	paths, ok := enumPaths(fn, newKeyer(fn), fn.Blocks[0], isEnd, isEnd, 5000)
 	r.paths += len(paths)
 	pos := r.Prog.Pos(s.listCall.Pos())
 	if !ok || len(paths) == 0 {
 		r.Undecided("C15.R8", "node list options", pos, shortFunc(fn), "paths to the node List call cannot be enumerated")
 		return
 	}
-	isSelField := func(v ssa.Value) bool { return hasPathSuffix(unwrap(v), "Canary", "NodeSelector") }
+	isSelField := func(v ssa.Value) bool { return ipHasSuffixC(s.al, v, "Canary", "NodeSelector") }
 	type agg struct {
 		ok     bool
 		n      int
@@ -961,7 +1002,7 @@ func c15Order(r *Run, s *c15Sel, apps []c15Append) {
 			continue
 		}
 		fa, isFA := ld.X.(*ssa.FieldAddr)
-		if isFA && fieldName(fa) == "Items" && sameValueC(s.k, fa.X, s.listObj) {
+		if isFA && fieldName(fa) == "Items" && s.sameList(fa.X) {
 			sortCall = c
 		}
 	}
@@ -969,7 +1010,7 @@ func c15Order(r *Run, s *c15Sel, apps []c15Append) {
 		r.Check("C15.R6", "candidates sorted by restarts", r.Prog.Pos(fn.Pos()), shortFunc(fn), "the fresh node list is sorted (sort.Slice) before new nodes are taken", false, "no sort.Slice over the node list")
 	} else {
 		pos := r.Prog.Pos(sortCall.Pos())
-		before := instrBeforeC(s.listCall, sortCall)
+		before := instrBeforeC(s.listAt, sortCall)
 		for _, a := range apps {
 			if a.class == "new" && !instrBeforeC(sortCall, a.loop.Header.Instrs[len(a.loop.Header.Instrs)-1]) {
 				before = false
@@ -1101,10 +1142,10 @@ func c15Less(s *c15Sel, less *ssa.Function, mc *ssa.MakeClosure) (bool, string) 
 		if lb == nil || bind(ry) != lb {
 			return false, "the compared items are not elements of one captured node list"
 		}
-		if !sameValueC(s.k, lb, s.listObj) {
+		if !s.sameList(lb) {
 			// captured variable cell holding the list object
 			al, isA := lb.(*ssa.Alloc)
-			if !isA || !sameValueC(s.k, spillOfC(al), s.listObj) && s.k.key(al) != strings.TrimPrefix(s.k.key(s.listObj), "*") {
+			if !isA || spillOfC(al) == nil || !s.sameList(spillOfC(al)) {
 				return false, "the captured list is not the freshly listed node list"
 			}
 		}
@@ -1112,39 +1153,45 @@ func c15Less(s *c15Sel, less *ssa.Function, mc *ssa.MakeClosure) (bool, string) 
 		if mb == nil || bind(ly.X) != mb {
 			return false, "the two lookups do not use one captured map"
 		}
+		// the restart map: made by the selection function or by the helper that counts the restarts
 		var mm *ssa.MakeMap
 		switch m := mb.(type) {
 		case *ssa.MakeMap:
 			mm = m
 		case *ssa.Alloc:
-			mm, _ = spillOfC(m).(*ssa.MakeMap)
+			if sv := spillOfC(m); sv != nil {
+				mm, _ = s.al.canon(sv).(*ssa.MakeMap)
+			}
 		}
 		if mm == nil {
-			return false, "the restart map is not made in the selection function"
+			return false, "the restart map is not a map made by the selection function or a helper it calls"
 		}
 		// updates of the map: key pod.Spec.NodeName of a listed pod, value depends on RestartCount
+		mfn := mm.Parent()
+		mk := newKeyer(mfn)
 		nUpd := 0
-		for _, b2 := range s.fn.Blocks {
+		for _, b2 := range mfn.Blocks {
 			for _, in := range b2.Instrs {
 				mu, ok := in.(*ssa.MapUpdate)
 				if !ok {
 					continue
 				}
-				m := mu.Map
-				if ld, ok := m.(*ssa.UnOp); ok && ld.Op == token.MUL {
-					if al, ok := ld.X.(*ssa.Alloc); ok {
-						m = spillOfC(al)
-					}
-				}
-				if m != ssa.Value(mm) {
+				if mu.Map != ssa.Value(mm) && s.al.canon(mu.Map) != ssa.Value(mm) {
 					continue
 				}
 				nUpd++
 				okKey := false
-				for _, l := range sliceLoopsC(s.fn) {
-					root, p := accessPath(l.Slice)
-					if s.podList != nil && sameValueC(s.k, root, s.podList) && pathIsC(p, "Items") {
-						if pp, isEl := l.elemPath(s.k, mu.Key); isEl && pathIsC(pp, "Spec", "NodeName") {
+				for _, l := range sliceLoopsC(mfn) {
+					// the ranged slice is <listed PodList>.Items, possibly handed to the helper as a parameter
+					isItems := false
+					for _, w := range s.al.chain(l.Slice) {
+						root, p := accessPath(w)
+						if s.podList != nil && (root == s.podList || s.al.same(root, s.podList)) && pathIsC(p, "Items") {
+							isItems = true
+						}
+					}
+					if isItems {
+						if pp, isEl := l.elemPath(mk, mu.Key); isEl && pathIsC(pp, "Spec", "NodeName") {
 							okKey = true
 						}
 					}
@@ -1243,12 +1290,14 @@ func c15Revalidation(r *Run, s *c15Sel) {
 			}
 			// anything else skips re-validation on some reconcile with a recorded canary
 			extra++
-			r.Check("C15.R7", "node selection guarded by "+c15GuardDesc(f), pos, shortFunc(caller),
+			// keyed by the reconciler entry point, not by the function that happens to contain the call:
+			// the guard is the same finding wherever a refactoring moves it
+			r.Check("C15.R7", "node selection guarded by "+c15GuardDesc(f), pos, c15Entry(r),
 				"while a canary is recorded every reconcile re-runs the node selection (which re-validates the selected nodes); the call may be guarded only by `canary strategy set`, `canary recorded` and `replicas resolved without error`",
 				false, "extra guard "+descFactC(f)+": when it does not hold the selected nodes are not re-validated (a deleted, relabelled or tainted canary node stays in status.canary.nodes)")
 		}
 		if extra == 0 {
-			r.Check("C15.R7", "node selection runs whenever a canary is recorded", pos, shortFunc(caller), "no extra guard on the selection call", true, "must-facts: "+descFactsC(fs))
+			r.Check("C15.R7", "node selection runs whenever a canary is recorded", pos, c15Entry(r), "no extra guard on the selection call", true, "must-facts: "+descFactsC(fs))
 		}
 	}
 }
@@ -1280,4 +1329,12 @@ func c15GuardDesc(f Fact) string {
 		s = s[:120] + "…"
 	}
 	return s
+}
+
+// c15Entry names the ExtendedDaemonSet reconciler entry point (stable function part of R7's keys).
+func c15Entry(r *Run) string {
+	if rec := r.Prog.Method(pkgEDS, "Reconciler", "Reconcile"); rec != nil {
+		return shortFunc(rec)
+	}
+	return "-"
 }
